@@ -15,7 +15,7 @@ import time
 import numpy as np
 
 from . import findings as F
-from .core import cleanup_scratch, jdump, rng_for, run_scenario
+from .core import cleanup_scratch, enter_private_cwd, jdump, rng_for, run_scenario
 from .shrink import minimise
 
 
@@ -38,7 +38,8 @@ def make_scenario(mod, prop, seed, i, tier) -> dict:
 def main(argv) -> int:
     prop, seed, tier = argv[0], int(argv[1]), argv[2]
     stripe, nstripes, count, budget = int(argv[3]), int(argv[4]), int(argv[5]), float(argv[6])
-    outfile = argv[7]
+    outfile = os.path.abspath(argv[7])
+    enter_private_cwd()
     det_only = len(argv) > 8 and argv[8] == "det"
     faulthandler.enable()
     hard = float(os.environ.get("VERIF_WORKER_HARD_TIMEOUT", "0")) or (budget * 2 + 600 if budget else 1500)
